@@ -19,6 +19,9 @@ CONFIGS = {
     "c-mutexsem": dict(lang="c", defs=[], incs=["platform/gcc_no_tls", "platform/linux", "platform/gcc", "platform/posix", "platform/x86_64"],
                        srcs=COMMON + ["platform/posix/src/nsync_panic.c", "platform/posix/src/per_thread_waiter.c", "platform/posix/src/time_rep.c",
                                       "platform/posix/src/yield.c", "platform/posix/src/nsync_semaphore_mutex.c"], hdefs=["-DNSIM_SEM_BINARY=1"]),
+    "c-semt": dict(lang="c", defs=[], incs=["platform/gcc_no_tls", "platform/linux", "platform/gcc", "platform/posix", "platform/x86_64"],
+                   srcs=COMMON + ["platform/posix/src/nsync_panic.c", "platform/posix/src/per_thread_waiter.c", "platform/posix/src/time_rep.c",
+                                  "platform/posix/src/yield.c", "platform/posix/src/nsync_semaphore_sem_t.c"], hdefs=[]),
     "c11-futex": dict(lang="c", defs=["-DNSYNC_ATOMIC_C11", "-std=gnu11"],
                       incs=["platform/gcc_no_tls", "platform/linux", "platform/c11", "platform/gcc", "platform/posix", "platform/x86_64"],
                       srcs=COMMON + ["platform/posix/src/nsync_panic.c", "platform/posix/src/per_thread_waiter.c", "platform/posix/src/time_rep.c",
